@@ -27,6 +27,7 @@ import (
 	"time"
 
 	"github.com/smart-core-os/sc-api/go/traits"
+	"google.golang.org/protobuf/proto"
 	"google.golang.org/protobuf/types/known/wrapperspb"
 
 	"github.com/smart-core-os/sc-golang/internal/verifhook"
@@ -47,6 +48,7 @@ type SingleCase struct {
 	Pre     int    `json:"pre"`     // updates of the item before the action, inside the window
 	BP      bool   `json:"bp"`
 	UO      bool   `json:"uo"`
+	Inc     bool   `json:"inc,omitempty"` // the subscription is made WithInclude(a filter that includes every item)
 }
 
 // one single-item subscription API: create makes the item (returns its id), open is the subscribing call (recv reports
@@ -215,6 +217,8 @@ func singleScenarios(boundMs int, thorough bool) []Scenario {
 			add(SingleCase{Adapter: name, Level: "model", When: "at-return", Action: "del", BP: bp, UO: bp})
 			add(SingleCase{Adapter: name, Level: "model", When: "after-seed", Action: "del", Pre: 1, BP: bp})
 		}
+		add(SingleCase{Adapter: name, Level: "model", Park: "icpt", When: "at-return", Action: "del", Pre: i % 3, BP: i%2 == 0, UO: i%3 == 2, Inc: true})
+		add(SingleCase{Adapter: name, Level: "model", When: "after-seed", Action: "del", Pre: 1 - i%2, BP: i%2 == 1, Inc: true})
 		add(SingleCase{Adapter: name, Level: "server", When: "after-seed", Action: "del", Pre: i % 2})
 		add(SingleCase{Adapter: name, Level: "server", When: "after-seed", Action: "cancel", Pre: 1})
 	}
@@ -297,6 +301,10 @@ func runSingle(sc Scenario, drv *lib.Driver) (out Outcome) {
 	ctx, cancel := context.WithCancel(context.Background())
 	defer cancel()
 	opts := []resource.ReadOption{resource.WithBackpressure(c.BP), resource.WithUpdatesOnly(c.UO)}
+	if c.Inc {
+		// a filter that includes every item: the subscription goes through CollectionChange.include and behaves as without
+		opts = append(opts, resource.WithInclude(func(string, proto.Message) bool { return true }))
+	}
 	closed := make(chan struct{})
 	seeded := make(chan struct{})
 	var seedOnce sync.Once
@@ -388,7 +396,7 @@ func runSingle(sc Scenario, drv *lib.Driver) (out Outcome) {
 			return 0
 		}
 		ans, err := drv.Ask(fmt.Sprintf("late 1 %d %d %d %s %s", b2i(c.UO), b2i(c.BP), c.Pre, c.Action, observed))
-		t := TieRec{Tie: tieLate, Key: fmt.Sprintf("%s/pre=%d/bp=%v/uo=%v", key, c.Pre, c.BP, c.UO), Nontrivial: c.Action == "del", Code: observed}
+		t := TieRec{Tie: tieLate, Key: fmt.Sprintf("%s/pre=%d/bp=%v/uo=%v%s", key, c.Pre, c.BP, c.UO, map[bool]string{true: "/include"}[c.Inc]), Nontrivial: c.Action == "del", Code: observed}
 		switch {
 		case err != nil:
 			t.Err = "driver: " + err.Error()
